@@ -67,15 +67,32 @@ def chunk_list(size, c):
 
 
 PAYLOAD_MODE = ["small"]
+_BIG_CACHE = {}
 BIG_LENGTHS = [4095, 4097, 0, 3000, 9000, 4096, 1, 8192, 12289]
+# further length patterns: small chunks after a big one (a tail that stays
+# in a write-combining buffer), and chunks that make one minishard exceed
+# 64 KiB and straddle 64 KiB boundaries of the shard file
+BIG_TABLES = {
+    "big": BIG_LENGTHS,
+    "big2": [5000, 100, 200, 300, 4000, 50, 7000, 10, 20, 4096, 3],
+    "huge": [30000, 40000, 100, 70000, 5, 65536, 1, 8000, 8000, 8000, 131073],
+}
 
 
 def payload(i):
     """distinct payloads, lengths 0..5, chunk 2 is empty ("big" mode:
     lengths around the 4096-byte read size of the write buffers)"""
-    if PAYLOAD_MODE[0] == "big":
-        n = BIG_LENGTHS[i % len(BIG_LENGTHS)]
-        return bytes((i * 31 + k * 7 + k // 251) % 256 for k in range(n))
+    if PAYLOAD_MODE[0] in BIG_TABLES:
+        tab = BIG_TABLES[PAYLOAD_MODE[0]]
+        n = tab[i % len(tab)]
+        key = (i, n)
+        if key not in _BIG_CACHE:
+            if len(_BIG_CACHE) > 64:
+                _BIG_CACHE.clear()
+            one = bytes((i * 31 + k * 7 + k // 251) % 256
+                        for k in range(min(n, 4099)))
+            _BIG_CACHE[key] = (one * (n // max(1, len(one)) + 1))[:n]
+        return _BIG_CACHE[key]
     if i == 2:
         return b""
     b = bytes([(17 * i + 3) % 251 + 1]) * (i % 5 + 1) + bytes([i % 256])
@@ -276,8 +293,9 @@ def check_closed(cfg, d, stored, chunks, order, vio, pkg=True, spec=True,
 def run_history(cfg, order, vio, pkg=True, spec=True):
     """replay one store order on a fresh writer, close, check.
     returns (dir digest or None)"""
-    if cfg.get("payloads") == "big" and PAYLOAD_MODE[0] != "big":
-        PAYLOAD_MODE[0] = "big"
+    if cfg.get("payloads") in BIG_TABLES \
+            and PAYLOAD_MODE[0] != cfg["payloads"]:
+        PAYLOAD_MODE[0] = cfg["payloads"]
         try:
             return run_history(cfg, order, vio, pkg, spec)
         finally:
